@@ -52,7 +52,8 @@ type exec struct {
 	// incarnations of a name): bodies for read-modify-write style PATCH requests that send the full resource back.
 	snaps    map[string][]map[string]any
 	lastFull string // status + complete body of the last deciding response (+ resumable sub-requests)
-	mustSame bool   // the last step failed (non-2xx): the next dump must equal the previous one
+	mustSame bool   // the last step failed (non-2xx) or only read: the next dump must equal the previous one
+	readOnly bool   // ... because the step consisted of reads only
 	stats    map[string]int64
 	sess     *sessInfo // the resumable session of the upload in progress / just decided (nil: none was opened)
 }
@@ -207,11 +208,15 @@ type uploadSpec struct {
 	// Extra: further resource fields sent in the multipart / resumable metadata (nested ones: acl entries, owner,
 	// retention, customerEncryption). The model demands nothing about them; whatever the server shows for them
 	// afterwards is part of the state that failed requests must leave alone.
-	Extra    map[string]any
-	Gzip     bool   // media / multipart request body gzip-compressed
-	MD5      string // "", right, wrong, malformed (multipart / resumable)
-	Conds    model.Conds
-	Boundary string
+	Extra map[string]any
+	// ContentEncoding "gzip": the metadata (multipart / resumable) declares the object gzip-encoded; Body then IS a gzip
+	// stream and is what the object consists of (size, MD5, stored bytes). Unrelated to Gzip below, which compresses
+	// the request body in transit.
+	ContentEncoding string
+	Gzip            bool   // media / multipart request body gzip-compressed
+	MD5             string // "", right, wrong, malformed (multipart / resumable)
+	Conds           model.Conds
+	Boundary        string
 	// resumable session behaviour
 	Post        bool // send chunks with POST instead of PUT (needs the Location URL)
 	UseLocation bool // take the session URL from Location (well-formed names only), else rebuild it from the upload id
@@ -232,6 +237,9 @@ func (u *uploadSpec) describe() string {
 	}
 	if u.Gzip {
 		s += " gzip"
+	}
+	if u.ContentEncoding != "" && u.Proto != "media" {
+		s += " contentEncoding=" + u.ContentEncoding
 	}
 	if u.MD5 != "" {
 		s += " md5=" + u.MD5
@@ -262,6 +270,9 @@ func (u *uploadSpec) metaJSON() []byte {
 	}
 	for k, v := range u.Extra {
 		m[k] = v
+	}
+	if u.ContentEncoding != "" {
+		m["contentEncoding"] = u.ContentEncoding
 	}
 	switch u.MD5 {
 	case "right":
@@ -552,6 +563,9 @@ func (e *exec) ackUpload(u *uploadSpec, content []byte, rsp *drive.Resp, cur *mo
 	e.headerAgrees("upload response", rsp, gen, metagen)
 	e.m.Put(u.Bucket, u.Name, o)
 	e.stats["uploads_ok"]++
+	if gzipEncoded(o) {
+		e.stats["objects_stored_gzip_encoded"]++
+	}
 	if !u.Conds.Empty() {
 		e.stats["conditioned_passes"]++
 	}
@@ -715,6 +729,155 @@ func (e *exec) del(b, n string, c model.Conds) string {
 	}
 	e.stats["precondition_failures"]++
 	return ""
+}
+
+// folderOf: name (with or without a trailing "/") is a proper "/"-prefix of a live name of the bucket - what a file
+// system would call a directory - and not itself an object.
+func (e *exec) folderOf(b, name string) bool {
+	p := strings.TrimSuffix(name, "/") + "/"
+	if e.m.Get(b, name) != nil || p == "/" {
+		return false
+	}
+	for _, l := range e.m.Names(b) {
+		if len(l) > len(p) && strings.HasPrefix(l, p) {
+			return true
+		}
+	}
+	return false
+}
+
+// delFolder sends a DELETE for a name under which nothing is stored and that is only a "/"-prefix of stored names
+// ("reports/2024" or "reports/" while "reports/2024/q1.bin" exists). There is no such object: the request must not be
+// acknowledged and nothing may change - in particular the objects below the prefix. The statement does not say with
+// which status an absent object's delete is refused, so for these names any error status is taken (404 is what a
+// store without directories answers); a failing / unparsable condition may be reported with its own status.
+func (e *exec) delFolder(b, n string, c model.Conds) string {
+	if e.m.Get(b, n) != nil {
+		return e.del(b, n, c)
+	}
+	v := model.Eval(nil, c)
+	expect := "not acknowledged (404 or another error status), nothing changed - no object of that name exists, only objects below it"
+	if v == model.Bad {
+		expect = "400"
+	}
+	e.touch(b, n)
+	rsp := e.cl.Delete(b, n, condParams(c))
+	req := fmt.Sprintf("delete %s/%q (never stored; a '/'-prefix of stored names)", b, n)
+	if !c.Empty() {
+		req += " conds=" + c.String()
+	}
+	e.recResp(req, expect, rsp, nil)
+	e.stats["deletes"]++
+	e.stats["deletes_of_folder_prefix_names"]++
+	if rsp.Err != "" {
+		return "delete got no response: " + rsp.Err
+	}
+	// which error status is not part of what the stores have to agree on
+	e.lastFull = fmt.Sprintf("acknowledged=%v", rsp.OK())
+	e.mustSame = true
+	if rsp.OK() {
+		return fmt.Sprintf("delete of %s/%q was acknowledged with %d although no object of that name was ever stored (it is only a '/'-prefix of the stored names %q)", b, n, rsp.Status, e.m.Names(b))
+	}
+	if v == model.Bad {
+		if rsp.Status != 400 {
+			return fmt.Sprintf("delete with an unparsable condition answered %d, want 400", rsp.Status)
+		}
+		return ""
+	}
+	if rsp.Status < 400 && !failureOK(v, rsp.Status, true) {
+		return fmt.Sprintf("delete of the absent %s/%q answered %d, expected an error status", b, n, rsp.Status)
+	}
+	if v != model.Pass {
+		e.stats["precondition_failures"]++
+	}
+	return ""
+}
+
+// reads is a step made of reads only, all addressed to one object and its bucket: metadata GET, media GET through every
+// URL form with and without "Accept-Encoding: gzip" in a drawn order, a listing. Each answer is compared with the
+// model; the dump that follows must equal the dump before the step.
+func (e *exec) reads(r *common.Rand, b, n string) string {
+	o := e.m.Get(b, n)
+	var sub []string
+	note := func(what string, status int) { sub = append(sub, fmt.Sprintf("%s -> %d", what, status)) }
+	var msg string
+	type get struct {
+		form int
+		ae   bool
+	}
+	var gets []get
+	for f := 0; f < drive.NForms; f++ {
+		if f == drive.FormPublic && !drive.PublicOK(n) {
+			continue
+		}
+		gets = append(gets, get{f, false}, get{f, true})
+	}
+	common.Shuffle(r, gets)
+	gets = gets[:r.Range(2, len(gets))]
+	metaAt, listAt := r.Intn(len(gets)+1), r.Intn(len(gets)+1)
+	for i := 0; i <= len(gets) && msg == ""; i++ {
+		if i == metaAt {
+			rsp := e.cl.GetMeta(b, n)
+			note("metadata GET", rsp.Status)
+			switch {
+			case o == nil && rsp.Status != 404:
+				msg = fmt.Sprintf("metadata GET of absent %s/%q = %d, want 404", b, n, rsp.Status)
+			case o != nil:
+				res, err := rsp.JSON()
+				if rsp.Status != 200 || err != nil {
+					msg = fmt.Sprintf("metadata GET of live %s/%q = %s", b, n, rsp)
+				} else if m := checkResource(res, b, n, o); m != "" {
+					msg = fmt.Sprintf("metadata GET of %s/%q: %s", b, n, m)
+				} else if m := model.FieldsEqual(model.ExtractFields(res), o.Learned); m != "" {
+					msg = fmt.Sprintf("metadata GET of %s/%q: user-settable fields differ from the last acknowledged ones: %s", b, n, m)
+				}
+			}
+		}
+		if i == listAt && msg == "" {
+			pfx := ""
+			if j := strings.LastIndex(n, "/"); j >= 0 && r.Bool() {
+				pfx = n[:j+1]
+			}
+			dlm := common.Pick(r, []string{"", "/"})
+			pages, trunc, err := e.cl.ListAll(b, pfx, dlm, common.Pick(r, []int{0, 1, 2}), len(e.m.Names(b))+3)
+			var mp []model.Page
+			for _, p := range pages {
+				mp = append(mp, model.Page{Items: p.Names, Prefixes: p.Prefixes})
+			}
+			note(fmt.Sprintf("list prefix=%q delimiter=%q (%d pages)", pfx, dlm, len(pages)), pages[len(pages)-1].Status)
+			if err != nil || trunc || pages[len(pages)-1].Status != 200 {
+				msg = fmt.Sprintf("listing of bucket %s prefix=%q delimiter=%q failed: status %d err=%v token chain cut=%v", b, pfx, dlm, pages[len(pages)-1].Status, err, trunc)
+			} else if m := model.CheckPages(mp, e.m.Names(b), pfx, dlm, 0); m != "" {
+				msg = fmt.Sprintf("listing of bucket %s prefix=%q delimiter=%q: %s", b, pfx, dlm, m)
+			}
+		}
+		if i < len(gets) && msg == "" {
+			g := gets[i]
+			rsp := e.cl.GetMediaAE(g.form, b, n, g.ae)
+			mv := &drive.MediaView{Fetched: true, Form: g.form, AcceptGzip: g.ae, Status: rsp.Status, Body: rsp.Body, Err: rsp.Err, Encoding: rsp.Header.Get("Content-Encoding"),
+				Gen: rsp.Header.Get("X-Goog-Generation"), Metagen: rsp.Header.Get("X-Goog-Metageneration")}
+			note("media GET ("+mediaDesc(mv)+")", rsp.Status)
+			if o == nil {
+				if rsp.Status != 404 {
+					msg = fmt.Sprintf("media GET (%s) of absent %s/%q = %d, want 404", mediaDesc(mv), b, n, rsp.Status)
+				}
+			} else {
+				msg = e.checkMedia(b, n, o, mv)
+			}
+		}
+	}
+	what := "live"
+	if o == nil {
+		what = "absent"
+	} else if gzipEncoded(o) {
+		what = "live, contentEncoding gzip"
+		e.stats["read_steps_on_gzip_encoded_objects"]++
+	}
+	e.rec(fmt.Sprintf("reads of %s/%q (%s)", b, n, what), "answers as the model says; nothing changes", fmt.Sprintf("%d requests", len(sub)), sub)
+	e.lastFull = strings.Join(sub, "\n")
+	e.stats["read_steps"]++
+	e.mustSame, e.readOnly = true, true
+	return msg
 }
 
 // patch sends a PATCH. fields is the JSON body: non-null user-settable fields, possibly embedded in a full object
@@ -1185,15 +1348,24 @@ func (e *exec) namesToDump() map[string][]string {
 // dump equals the previous dump. Returns "" or the refuting observation.
 func (e *exec) verify() string {
 	stepNo := len(e.steps)
+	// every media GET is sent with or without "Accept-Encoding: gzip", varying with step, name and form
+	ae := func(n string, f int) int {
+		if common.Hash64(n, fmt.Sprint(stepNo, "/", f))%2 == 0 {
+			return f | drive.AcceptGzip
+		}
+		return f
+	}
 	forms := func(b, n string) []int {
 		if e.allForms || e.touched[b+"\x00"+n] {
-			return []int{drive.FormJSON, drive.FormDownload, drive.FormPublic}
+			// all three forms, and the first of them once more the other way round
+			first := ae(n, drive.FormJSON)
+			return []int{first, ae(n, drive.FormDownload), ae(n, drive.FormPublic), first ^ drive.AcceptGzip}
 		}
 		f := (stepNo + int(common.Hash64(n)%3)) % 3
 		if f == drive.FormPublic && !drive.PublicOK(n) {
 			f = drive.FormJSON
 		}
-		return []int{f}
+		return []int{ae(n, f)}
 	}
 	d := e.cl.Dump(e.namesToDump(), forms)
 	e.stats["dumps"]++
@@ -1203,10 +1375,16 @@ func (e *exec) verify() string {
 	if msg == "" && e.mustSame && e.last != nil {
 		if dm := drive.DiffCanon(e.last, canon); dm != "" {
 			msg = "a failed request changed the observable store: " + dm
+			if e.readOnly {
+				msg = "reads (metadata GET, media GET, listing) changed the observable store: " + dm
+			}
+		}
+		if e.readOnly {
+			e.stats["unchanged_dumps_compared_after_reads"]++
 		}
 		e.stats["unchanged_dumps_compared"]++
 	}
-	e.mustSame = false
+	e.mustSame, e.readOnly = false, false
 	e.last = canon
 	e.lastDump = d
 	return msg
@@ -1283,9 +1461,9 @@ func (e *exec) diff(d *drive.StoreDump) string {
 				if ov.MetaStatus != 404 {
 					return fmt.Sprintf("metadata GET of absent %s/%q = %d %s, want 404", b, n, ov.MetaStatus, clipS(ov.MetaRaw))
 				}
-				for f, mv := range ov.Media {
+				for _, mv := range ov.Media {
 					if mv.Fetched && mv.Status != 404 {
-						return fmt.Sprintf("media GET (%s) of absent %s/%q = %d, want 404", drive.FormNames[f], b, n, mv.Status)
+						return fmt.Sprintf("media GET (%s) of absent %s/%q = %d, want 404", mediaDesc(&mv), b, n, mv.Status)
 					}
 				}
 				e.stats["absent_names_confirmed"]++
@@ -1309,25 +1487,59 @@ func (e *exec) diff(d *drive.StoreDump) string {
 			if msg := model.FieldsEqual(model.ExtractFields(ov.Meta), o.Learned); msg != "" {
 				return fmt.Sprintf("metadata GET of %s/%q: user-settable fields differ from the last acknowledged ones: %s", b, n, msg)
 			}
-			for f, mv := range ov.Media {
+			for i := range ov.Media {
+				mv := &ov.Media[i]
 				if !mv.Fetched {
 					continue
 				}
-				if mv.Err != "" || mv.Status != 200 {
-					return fmt.Sprintf("media GET (%s) of live %s/%q = %d %s", drive.FormNames[f], b, n, mv.Status, mv.Err)
-				}
-				if !bytes.Equal(mv.Body, o.Content) {
-					return fmt.Sprintf("media GET (%s) of %s/%q returned %s, uploaded %s", drive.FormNames[f], b, n, bodyDesc(mv.Body), bodyDesc(o.Content))
-				}
-				e.stats["media_compared"]++
-				if mv.Gen != "" || mv.Metagen != "" {
-					hg, _ := strconv.ParseInt(mv.Gen, 10, 64)
-					hm, _ := strconv.ParseInt(mv.Metagen, 10, 64)
-					e.law(e.laws.Observe(b, n, "media GET header ("+drive.FormNames[f]+")", hg, hm))
-					e.stats["gen_reports_compared"]++
+				if msg := e.checkMedia(b, n, o, mv); msg != "" {
+					return msg
 				}
 			}
 		}
+	}
+	return ""
+}
+
+func mediaDesc(mv *drive.MediaView) string {
+	if mv.AcceptGzip {
+		return drive.FormNames[mv.Form] + ", Accept-Encoding: gzip"
+	}
+	return drive.FormNames[mv.Form] + ", no Accept-Encoding"
+}
+
+// gzipEncoded: the server last acknowledged the object with contentEncoding "gzip".
+func gzipEncoded(o *model.Object) bool {
+	s, _ := o.Learned["contentEncoding"].(string)
+	return s == "gzip"
+}
+
+// checkMedia compares one media GET of a live object with the model: the body is the stored content byte for byte. For
+// an object stored with contentEncoding gzip a client that did not send "Accept-Encoding: gzip" may instead be
+// served the decompressed content (decompressive transcoding); a client that did send it gets the stored bytes.
+func (e *exec) checkMedia(b, n string, o *model.Object, mv *drive.MediaView) string {
+	if mv.Err != "" || mv.Status != 200 {
+		return fmt.Sprintf("media GET (%s) of live %s/%q = %d %s", mediaDesc(mv), b, n, mv.Status, mv.Err)
+	}
+	if !bytes.Equal(mv.Body, o.Content) {
+		plain, isGz := drive.Gunzip(o.Content)
+		if !(gzipEncoded(o) && !mv.AcceptGzip && isGz && bytes.Equal(mv.Body, plain)) {
+			what := "uploaded " + bodyDesc(o.Content)
+			if gzipEncoded(o) && isGz {
+				what = fmt.Sprintf("stored with contentEncoding gzip: %s, decompressed %s", bodyDesc(o.Content), bodyDesc(plain))
+			}
+			return fmt.Sprintf("media GET (%s) of %s/%q returned %s (Content-Encoding %q), %s", mediaDesc(mv), b, n, bodyDesc(mv.Body), mv.Encoding, what)
+		}
+		e.stats["media_compared_transcoded"]++
+	} else if gzipEncoded(o) {
+		e.stats["media_compared_gzip_encoded_as_stored"]++
+	}
+	e.stats["media_compared"]++
+	if mv.Gen != "" || mv.Metagen != "" {
+		hg, _ := strconv.ParseInt(mv.Gen, 10, 64)
+		hm, _ := strconv.ParseInt(mv.Metagen, 10, 64)
+		e.law(e.laws.Observe(b, n, "media GET header ("+drive.FormNames[mv.Form]+")", hg, hm))
+		e.stats["gen_reports_compared"]++
 	}
 	return ""
 }
